@@ -153,3 +153,27 @@ claim("C20", "dominance + who-may-call + partial evaluation of health/threshold 
       "threshold (clamped to ≥ 1); exactly SIGINT/SIGTERM are registered; after the signal main cancels the polling context, sleeps "
       "the grace period, terminates — or returns at once without one (nothing deferred by main waits); every list call is preceded by the non-blocking cancellation "
       "test and performs exactly one proxy round trip; runAdapter gives the polling context to the poller only; the polling context never leaves pollForNewRequests and the shared HTTP client is not modified by the poller; hostProxy's context reaches the shim/banner constructors only (forwarded requests are not bound to it); every path through the failing side of the health loop counts; nothing waits between signal.Notify and the receive from the signal channel.")
+
+# ---- additions of round 9 / round J (appended to the claim texts above)
+_R9 = {
+    "C01": " Round 9: the HTML splice passes on every byte it read, the stand-alone proxy arms no connection deadline and a worker's request does not end with the polling context (C01.T, shared with C05.M, C14.S, C04.P, C20.W); the response cache stores 200s only.",
+    "C02": " Round 9: no agent code gives the replayed request a RemoteAddr (ReverseProxy would rewrite X-Forwarded-For); the stand-alone proxy's start-up code wraps its handler in nothing that rewrites requests (AllowQuerySemicolons, ServeMux, …).",
+    "C03": " Round 9: no transport built by the agent caps the response header size, the time to the header or the connections per host.",
+    "C04": " Round 9: size caps on the pending list are constants of at least 1 MiB; the dedup cache is created once, by a poller that no loop restarts.",
+    "C05": " Round 9: RoundTrip methods of the agent's transports are response-path entry points (no read-ahead of the upload body).",
+    "C06": " Round 9: recording a metric never holds up the serialiser or the handler (C06.L = C05.L).",
+    "C07": " Round 9: indices into fixed arrays, string indices and indices counted back from the end are in range; SIGPIPE is never a shutdown request.",
+    "C10": " Round 9: what the forwarder publishes is what the session writer released, the shim's handshake uses the header the session handler restored, nothing rewrites the request before the session handler (C10.H, shared with C03.H, C09.N, C02.W). Round J: a session ID merged with the constant its extractor returns on the not-ok path is still the caller's own.",
+    "C11": " Round 9: shim endpoints read request bodies without a size cap; the handshake header is a filtered copy, so the version header is read from an unedited request.",
+    "C12": " Round 9: the handshake with the backend is bounded in time wherever the dialer's time-out is set; indices on the open path (session wrapper included) are in range.",
+    "C13": " Round 9: no new writer of Host/URL fields in the session handler or the shim, no mux or redirect on the pass-through route (C13.W, shared with C02.W, C02.T).",
+    "C14": " Round 9: the possibly framed or spliced response is serialised with forced chunked framing (C14.F = C03.C).",
+    "C15": " Round 9: the bridge backend serves the h2c wrapper around the bridge handler on every path through main.",
+    "C16": " Round 9: Close of the bridge's connection type is the promoted Close or closes the embedded connection on every path.",
+    "C18": " Round 9: no cache in front of the polls that keep a backend live; every property a backend entity was ever stored with is still a field the datastore codec loads.",
+    "C19": " Round 9: stored request/response/blob entities stay loadable; the response cache stores 200s only. Round J: the wait loops accept a configured time-out whose interval is positive and bounded.",
+    "C20": " Round 9: signal dispositions change only in ShutdownSignalChan; runAdapter returns nil once polling ended; nothing overwrites the health-interval flag.",
+}
+for _pid, _t in _R9.items():
+    _lvl, _tech, _txt = CHECKS[_pid]
+    CHECKS[_pid] = (_lvl, _tech, _txt + _t)
